@@ -24,6 +24,12 @@ CHECKS = {
  "C10": ("model_checking", "TLC model checking of Escape/Buffer spec over all byte strings up to a bound x every offset x flags + byte-exact replay on InternalEscapeBytes/EscapeMarkers/EscapeBytes/ManualBuffer + trace validation",
    "Exhaustive within the bound for every start offset and flag combination; byte-exact agreement of the real escape functions with the transcription; input slices checked unmodified; split-insensitivity checked on the real buffer for every split point.",
    "DESIGN.md 6/C10", "utf8.DecodeLastRune from the Go standard library is trusted as the definition of a dangling sequence"),
+ "C04": ("model_checking", "TLC model checking of the Format spec (doPrintf parser) over all short format strings + replay with recording operands under redact and fmt + differential runs against fmt over a value universe",
+   "The directive parser is transcribed statement for statement; TLC enumerates all formats over a 16-token alphabet up to the bound and the real redact and fmt printers must both render exactly what the model's item list renders; the value-level clause is decided by a large differential run against the installed fmt judged by the property's own equation.",
+   "DESIGN.md 6/C04", "installed fmt (Go 1.23) is the reference the property names; leaf digit strings are not modelled (fmt supplies them)"),
+ "C14": ("model_checking", "complete TLC enumeration of the Fwd spec (MakeFormat round trip through the Format parser) + replay of every directive with probe formatters under real fmt and real redact",
+   "The directive space of the property's quantifier is enumerated completely at the thorough tier; the model's MakeFormat string must equal the real one under both printers, the real round trip must re-observe the same flags/width/precision/verb, and wrappers/forwarders print like the bare operand under fmt for 19 kinds.",
+   "DESIGN.md 6/C14", "Go 1.23 fmt as the standard fmt.State"),
 }
 
 NOT_YET = {
